@@ -63,12 +63,26 @@ def parse_proof(proof) -> ProofState:
     for nm, T in context.ctxt.vars.items():
         state.vars.append(Var(nm, T))
     state.prf = Proof()
-    for line in proof:
-        if line['rule'] == "variable":
-            nm, str_T = line['args'].split(',', 1)
-            context.ctxt.vars[nm] = parser.parse_type(str_T.strip())
-        item = parser.parse_proof_rule(line)
-        state.prf.insert_item(item)
+    # Variables declared inside a block are visible until the end of that
+    # block only: scopes[k] holds the variables of the enclosing block at
+    # depth k+1.
+    ctxt = context.ctxt
+    scopes = [dict(ctxt.vars)]
+    try:
+        for line in proof:
+            depth = len(ItemID(line['id']).id)
+            while len(scopes) > depth:
+                scopes.pop()
+            while len(scopes) < depth:
+                scopes.append(dict(scopes[-1]))
+            ctxt.vars = scopes[-1]
+            if line['rule'] == "variable":
+                nm, str_T = line['args'].split(',', 1)
+                ctxt.vars[nm] = parser.parse_type(str_T.strip())
+            item = parser.parse_proof_rule(line)
+            state.prf.insert_item(item)
+    finally:
+        ctxt.vars = scopes[0]
     state.check_proof()
 
     return state
